@@ -11,6 +11,7 @@ import (
 	"os"
 	"path/filepath"
 	"time"
+	"verifharness/internal/metricsx"
 
 	"reservoir/cache"
 	"reservoir/config"
@@ -82,7 +83,7 @@ func New(o Opts) *Kit {
 }
 
 func (k *Kit) open() {
-	metrics.Global = metrics.NewMetrics()
+	metricsx.Reset()
 	ctx, cancel := context.WithCancel(context.Background())
 	k.cancel = cancel
 	o := k.Opts
